@@ -416,6 +416,17 @@ impl Logger {
     }
 }
 
+#[cfg(log4rs_verif)]
+#[allow(missing_docs)]
+impl Logger {
+    /// Verification hook: a `Handle` for a `Logger` that is not the global one.
+    pub fn verif_handle(&self) -> Handle {
+        Handle {
+            shared: self.0.clone(),
+        }
+    }
+}
+
 impl log::Log for Logger {
     fn enabled(&self, metadata: &Metadata) -> bool {
         self.0
